@@ -210,6 +210,11 @@ func prepareDir(c Case) (dir, name, target string, before []any) {
 	_ = os.WriteFile(filepath.Join(dir, "other.yaml"), []byte(expectedContent("other.yaml", "A")), 0o644)
 	if prev, _ := c["prev"].(bool); prev {
 		_ = os.WriteFile(filepath.Join(dir, target), []byte(expectedContent(name, "A")), 0o644)
+		if name != "x.json" {
+			// the previous file has a second name elsewhere (a backup made with ln): the writer replaces the Spec
+			// name, it does not write into the old file
+			_ = os.Link(filepath.Join(dir, target), filepath.Join(fswriteRoot, "backup-of-"+target))
+		}
 	}
 	before = listDir(dir)
 	c["before"], c["dst"], c["new"] = before, hx(target), hx(expectedContent(name, "B"))
